@@ -109,6 +109,13 @@ def _diag_to_failure(unit, g, d):
         kind = 'assert'
     else:
         kind = 'panic'
+    if text.startswith('({'):
+        # a block clause: its tags/label sit on the closing line `}), // [..] #label`
+        for ln2 in range(chosen, min(chosen + 40, len(g.lines))):
+            l2 = g.lines[ln2].strip()
+            if l2.startswith('})'):
+                text = '({ ... ' + l2
+                break
     tags = TAG_RE.search(text)
     props = None
     if tags:
@@ -117,6 +124,7 @@ def _diag_to_failure(unit, g, d):
     label = lab.group(1) if lab else None
     clause = TAG_RE.sub('', text).strip()
     clause = re.sub(r'//.*$', '', clause).strip().rstrip(',')
+    clause = re.sub(r'\s*#[A-Za-z0-9_.:-]+\s*$', '', clause).strip().rstrip(',')
     if kind in ('panic', 'requires@callsite', 'decreases', 'assert'):
         # identify by the code line that raised it (text, not line number: survives unrelated edits)
         prim_txt = g.lines[d['line'] - 1].strip() if 1 <= d['line'] <= len(g.lines) else d['text']
@@ -186,6 +194,13 @@ def run_verus_unit(name, sidecar=None, rlimit=None, extra=(), seed=None):
         ur2 = run_verus_unit(name, sidecar, rlimit=100, extra=extra, seed=seed)
         ur2.wall_s += ur.wall_s
         return ur2
+    _seen = set()
+    _uniq = []
+    for f in ur.failures:
+        if f.oid not in _seen:
+            _seen.add(f.oid)
+            _uniq.append(f)
+    ur.failures = _uniq
     for d in rl_only:
         ur.undecided.append('rlimit exceeded: %s.rs:%d %s' % (name, d['line'], d['text'][:120]))
     if not ur.undecided and not ur.sentinel_failed:
